@@ -470,7 +470,7 @@ const (
 	hour = int64(time.Hour)
 )
 
-// witnesses are always generated: the open findings (F9a, F9f), the repaired ones (they must pass the oracle now)
+// witnesses are always generated: the open finding F9a, the repaired ones (they must pass the oracle now)
 // and the boundary cases the property text names.
 func witnesses() []scenario {
 	big := 10000 * hour
@@ -502,10 +502,10 @@ func witnesses() []scenario {
 			Next: fixedSteps(step{P: wp(100*ns, 10*ns)})},
 		{Name: "w-close-overshoot", Witness: "fixed:F9d", Gaps0: []int64{10 * ns, 140 * ns}, Adv0: ns, Batch: 1, PreTail: 1, PreHead: 2,
 			Next: fixedSteps(step{P: wp(100*ns, ns)})},
-		{Name: "w-down-from-single-header", Witness: "F9f", Gaps0: rep(sec, 69), Adv0: ns, Batch: 1, PreTail: 62, PreHead: 62,
+		{Name: "w-down-from-single-header", Witness: "fixed:F9f", Gaps0: rep(sec, 69), Adv0: ns, Batch: 1, PreTail: 62, PreHead: 62,
 			Next: fixedSteps(step{P: params{Window: 337 * hour, HashKind: hashAt, HashAt: 61, Trusting: big, Block: sec, BlockSet: true, Recency: ns}},
 				step{P: params{Window: 337 * hour, HashKind: hashAt, HashAt: 61, Trusting: big, Block: sec, BlockSet: true, Recency: ns}})},
-		{Name: "w-down-65-from-single-header", Witness: "F9f", Gaps0: rep(sec, 99), Adv0: ns, Batch: 1, PreTail: 90, PreHead: 90,
+		{Name: "w-down-65-from-single-header", Witness: "fixed:F9f", Gaps0: rep(sec, 99), Adv0: ns, Batch: 1, PreTail: 90, PreHead: 90,
 			Next: fixedSteps(step{P: params{Window: 337 * hour, From: 25, Trusting: big, Block: sec, BlockSet: true, Recency: ns}})},
 		{Name: "w-down-64-from-single-header", Gaps0: rep(sec, 99), Adv0: ns, Batch: 1, PreTail: 90, PreHead: 90,
 			Next: fixedSteps(step{P: params{Window: 337 * hour, From: 26, Trusting: big, Block: sec, BlockSet: true, Recency: ns}})},
@@ -758,7 +758,7 @@ func TestC16(t *testing.T) {
 	w.Rule = "one case = one recomputation of the tail through the public API: Start() of a freshly configured Syncer (restart / reconfiguration), or " +
 		"Head() of the Syncer left running by the previous step where that cannot race with the sync loop (new head adjacent to the store head, or local head expired); " +
 		"real sync.Syncer over the real store.Store (in-memory datastore, Append made synchronous) and a scripted getter serving a generated chain, in synctest virtual time; " +
-		"scenarios chain 1-4 such steps on one store while the network chain grows and the clock advances; generators: 17 witness scenarios (always: open findings F9a/F9f, repaired findings F8/F9b/F9c/F9d/F9e, boundary cases), random scenarios over " +
+		"scenarios chain 1-4 such steps on one store while the network chain grows and the clock advances; generators: 17 witness scenarios (always: open finding F9a, repaired findings F8/F9b/F9c/F9d/F9e/F9f, boundary cases), random scenarios over " +
 		"{exact, fast, slow, halted, jitter, irregular, same-time, unordered} chains x units 1ns..1h x blockTime {unset, 0, unit, 2*unit, unit/2, negative} x window multiples and " +
 		"boundary-aimed windows (tailTimeDiff in {-1,0,1}, {window-1,window,window+1}, expected tail time at a stored header's time +-1) x trusting period (large / small: expiry) x " +
 		"SyncFromHeight / SyncFromHash at positions around tail, head, head+1, network head and beyond x invalid parameter sets; the young-chain boundary of estimateTailHeight; " +
